@@ -95,7 +95,12 @@ type syncNode struct {
 }
 
 func newSwitch(name string, idx int, key crypto.PrivKeyEd25519) *p2p.Switch {
-	sw := p2p.NewSwitch(viper.New())
+	conf := viper.New()
+	// the pool's peer timeout is scaled down from 15 s to a few seconds; the connection's
+	// rate limits (default 5 MB/s) are scaled up accordingly
+	conf.Set("send_rate", 100*1024*1024)
+	conf.Set("recv_rate", 100*1024*1024)
+	sw := p2p.NewSwitch(conf)
 	sw.SetNodeInfo(&p2p.NodeInfo{PubKey: key.PubKey(), Moniker: name, Network: chainID, Version: "0.9.0",
 		ListenAddr: fmt.Sprintf("127.0.0.1:%d", 20000+idx)})
 	sw.SetNodePrivKey(key)
@@ -415,6 +420,24 @@ func (w *world) drive() {
 	w.releaseMs = int64(time.Since(w.start) / time.Millisecond)
 	w.logf("release in order %v", sc.Order)
 	w.mu.Unlock()
+	landWait := 75
+	if w.pl != nil && w.pl.hangup > 0 {
+		landWait = 10 // a block of several megabytes takes a while; the others are not kept waiting for it
+		go func() {
+			lo, hi := w.pl.span[0], w.pl.span[1]
+			for t := 0; t < 20000 && !(pool.VerifHasBlock(lo) && pool.VerifHasBlock(hi)); t++ {
+				time.Sleep(time.Millisecond)
+			}
+			time.Sleep(w.pl.hangup)
+			w.mu.Lock()
+			peer := m.peer
+			w.logf("M hangs up")
+			w.mu.Unlock()
+			if peer != nil {
+				m.sw.StopPeerGracefully(peer)
+			}
+		}()
+	}
 	for _, x := range order {
 		for _, hd := range hs {
 			if hd.req != x {
@@ -428,7 +451,7 @@ func (w *world) drive() {
 			if hd.block != nil && hd.block.Header != nil {
 				lands = hd.block.Height
 			}
-			for t := 0; t < 75 && !pool.VerifHasBlock(lands); t++ {
+			for t := 0; t < landWait && !pool.VerifHasBlock(lands); t++ {
 				time.Sleep(2 * time.Millisecond)
 			}
 		}
